@@ -51,6 +51,11 @@ pub(crate) struct Thread {
 
     locals: LocalMap,
 
+    /// The order in which the thread-locals were initialized. They are dropped
+    /// in that order, so that destructors which perform modelled operations
+    /// run in the same order in every run of the model.
+    locals_order: Vec<LocalKeyId>,
+
     /// `tracing` span used to associate diagnostics with the current thread.
     span: tracing::Span,
 }
@@ -128,6 +133,7 @@ impl Thread {
             last_yield: None,
             yield_count: 0,
             locals: HashMap::new(),
+            locals_order: Vec::new(),
         }
     }
 
@@ -183,8 +189,10 @@ impl Thread {
         let mut locals = Vec::with_capacity(self.locals.len());
 
         // run the Drop impls of any mock thread-locals created by this thread.
-        for local in self.locals.values_mut() {
-            locals.push(local.0.take());
+        for key in &self.locals_order {
+            if let Some(local) = self.locals.get_mut(key) {
+                locals.push(local.0.take());
+            }
         }
 
         Box::new(locals)
@@ -474,11 +482,11 @@ impl Set {
         key: &'static crate::thread::LocalKey<T>,
         value: T,
     ) {
-        assert!(self
-            .active_mut()
-            .locals
-            .insert(LocalKeyId::new(key), LocalValue::new(value))
-            .is_none())
+        let key = LocalKeyId::new(key);
+        let active = self.active_mut();
+
+        assert!(active.locals.insert(key, LocalValue::new(value)).is_none());
+        active.locals_order.push(key);
     }
 }
 
